@@ -12,7 +12,7 @@ use tokio::sync::broadcast;
 use tokio::sync::mpsc::{self, UnboundedReceiver, UnboundedSender};
 
 use std::collections::HashSet;
-use std::sync::{Arc, RwLock};
+use std::sync::{Arc, Mutex, RwLock};
 
 use scru128::Scru128Id;
 
@@ -176,6 +176,9 @@ pub struct Store {
     contexts: Arc<RwLock<HashSet<Scru128Id>>>,
     broadcast_tx: broadcast::Sender<Frame>,
     gc_tx: UnboundedSender<GCTask>,
+    // Serializes append: id assignment, commit and broadcast form one critical section,
+    // so frames become visible (and are broadcast) in id order
+    append_lock: Arc<Mutex<()>>,
 }
 
 impl Store {
@@ -214,6 +217,7 @@ impl Store {
             contexts: Arc::new(RwLock::new(contexts)),
             broadcast_tx,
             gc_tx,
+            append_lock: Arc::new(Mutex::new(())),
         };
 
         // Load context registrations
@@ -524,6 +528,14 @@ impl Store {
     pub fn append(&self, mut frame: Frame) -> Result<Frame, crate::error::Error> {
         #[cfg(feature = "verif-hooks")]
         crate::verif::sync_point("append.enter", 0, Some(&frame));
+        // Without this, a writer holding a smaller id could commit after a writer with a
+        // larger id: readers polling with last-id would miss the frame, and subscribers
+        // would receive frames out of order
+        let _append_guard = self
+            .append_lock
+            .lock()
+            .unwrap_or_else(|poisoned| poisoned.into_inner());
+
         frame.id = scru128::new();
 
         #[cfg(feature = "verif-hooks")]
